@@ -248,3 +248,17 @@ Definition diag_eqb_msg (a b : diag) : bool := diag_eqb a b && str_eqb (d_msg a)
 Definition fr_eqb (a b : file_result) : bool :=
   str_eqb (fr_id a) (fr_id b) && option_eqb aidl_eqb (fr_ast a) (fr_ast b) &&
   list_eqb diag_eqb (fr_diags a) (fr_diags b).
+
+(* ---- induction principle for the nested type tree ---- *)
+Section TyInd.
+  Variable P : ty -> Prop.
+  Hypothesis H : forall n k g s f, Forall P g -> P (Ty n k g s f).
+  Fixpoint ty_ind' (t : ty) : P t :=
+    let 'Ty n k g s f := t in
+    H n k g s f
+      ((fix go (l : list ty) : Forall P l :=
+          match l with
+          | [] => Forall_nil P
+          | x :: l' => Forall_cons x (ty_ind' x) (go l')
+          end) g).
+End TyInd.
